@@ -16,7 +16,7 @@
    Contents
    1. helpers: the naive evaluators never panic; max_response_time of non-panicking results;
    2. e_search_total, st_total;
-   3. e_es_total; e_es_needs_steps_ok (finding: wf_rb alone is not enough — ArrivalCurvePrefix);
+   3. e_es_total; e_es_prefix_no_panic (ArrivalCurvePrefix, whose first step is 0: no panic since zero-length steps are skipped);
    4. callbacks built by cb_of from well-formed workloads;
    5. e_rr_total_gen / e_rr_total;
    6. e_bw_total_gen / e_bw_total: no hypothesis on the subchain or on the arrivals of the end of chain is
@@ -114,11 +114,13 @@ Proof.
 Qed.
 Print Assumptions e_es_total.
 
-(* [rb_steps_ok] cannot be weakened to [wf_rb]: an ArrivalCurvePrefix is a well-formed arrival bound, but its
-   step enumeration starts with 0 (known finding C11/C20-prefix-step-zero), and [Offset::closed_from_time_zero]
-   underflows.  (In the crate only the debug build panics; the release build wraps around.) *)
-Theorem e_es_needs_steps_ok : exists sb rb limit, wf_sb sb /\ wf_rb rb /\
-  e_es true sb rb limit = RPanic /\ e_es false sb rb limit = RPanic.
+(* An ArrivalCurvePrefix is a well-formed arrival bound that does not satisfy [rb_steps_ok]: its step enumeration
+   starts with 0 (known finding C11/C20-prefix-step-zero).  In earlier revisions of the crate
+   [Offset::closed_from_time_zero] underflowed on that step (a panic in the debug build); the defect was fixed by
+   skipping zero-length steps when interval lengths are converted to offsets, so the analysis no longer panics
+   and its debug and release builds agree. *)
+Theorem e_es_prefix_no_panic : exists sb rb limit, wf_sb sb /\ wf_rb rb /\
+  e_es true sb rb limit <> RPanic /\ e_es true sb rb limit = e_es false sb rb limit.
 Proof.
   exists Dedicated, (RBF (PrefixAB 10 [(1, 1); (4, 2)]) (Scalar 1)), 50.
   split; [exact I|]. split.
@@ -128,9 +130,9 @@ Proof.
       cbn [length] in Hi. lia.
     + intros i Hi. destruct i as [|i]; cbn [nth fst snd]; [lia|].
       cbn [length] in Hi. lia.
-  - split; vm_compute; reflexivity.
+  - split; vm_compute; [discriminate|reflexivity].
 Qed.
-Print Assumptions e_es_needs_steps_ok.
+Print Assumptions e_es_prefix_no_panic.
 
 (* ------------------------------------------------------------------------------------------ *)
 (* 4. callbacks of well-formed workloads                                                       *)
